@@ -84,6 +84,8 @@ func checkC06(p *load.Program, r *kit.Report) {
 
 	checkTxRetention(p, r, "RETENTION")
 	checkRemoveID(p, r, "RETENTION")
+	r.Rule("ANNOUNCERS-KEPT", "the announcer list of an entry other goroutines can see changes only by appendID/removeID of its own previous value", 2)
+	checkAnnouncersKept(p, r, "ANNOUNCERS-KEPT")
 	addTx := fn(p, r, "TEST-AND-SET", R, "TxManager.AddTx")
 	if addTx != nil {
 		li := kit.Lockset(addTx, nil)
